@@ -225,6 +225,8 @@ HOSTILE = {     # (input protocol, validator) -> {name: (body, wsgi env)}
         'child attribute named like a sibling member': (b'<take xmlns="tns"><item><tags dur="x"><string>a</string></tags></item></take>', {}),
         'attribute named like a member on the object': (b'<take xmlns="tns"><item dur="x" blob="!"><name>a</name></item></take>', {}),
         'unknown charset': (b'<take xmlns="tns"><item><name>a</name></item></take>', {'CONTENT_TYPE': 'text/xml; charset=bogus-9'}),
+        'empty charset': (b'<?xml version="1.0" encoding="utf-8"?><take xmlns="tns"><item><name>a</name></item></take>', {'CONTENT_TYPE': 'text/xml; charset='}),
+        'quoted empty charset': (b'<take xmlns="tns"><item><name>a</name></item></take>', {'CONTENT_TYPE': 'text/xml; charset=""'}),
         'bad base64': (b'<take xmlns="tns"><item><blob>abc</blob></item></take>', {}),
         'duration overflow': (b'<take xmlns="tns"><item><dur>P99999999999D</dur></item></take>', {}),
         'text and tail around members': (b'<take xmlns="tns">x<item>y<name>a</name>z</item>w</take>', {}),
@@ -239,6 +241,8 @@ HOSTILE = {     # (input protocol, validator) -> {name: (body, wsgi env)}
         'self-referencing href': (_soapb('<take xmlns="tns" id="a"><item href="#a"/></take>'), {}),
         'Fault as request': (_soapb('<s:Fault xmlns:s="%s"><faultcode>x</faultcode></s:Fault>' % P.SOAP_ENV), {}),
         'unknown charset': (_soapb('<take xmlns="tns"><item><name>a</name></item></take>'), {'CONTENT_TYPE': 'text/xml; charset=bogus-9'}),
+        'empty charset': (_soapb('<take xmlns="tns"><item><name>a</name></item></take>'), {'CONTENT_TYPE': 'text/xml; charset='}),
+        'quoted empty charset': (_soapb('<take xmlns="tns"><item><name>a</name></item></take>'), {'CONTENT_TYPE': 'text/xml; charset=""'}),
         'entity reference as child of an object': (b'<!DOCTYPE x [<!ENTITY x "y">]>' + _soapb('<take xmlns="tns"><item>&x;</item></take>'), {}),
     },
     'json': {
@@ -252,6 +256,9 @@ HOSTILE = {     # (input protocol, validator) -> {name: (body, wsgi env)}
         'bad base64': (b'{"take": {"item": {"blob": "abc"}}}', {}),
         'duration overflow': (b'{"take": {"item": {"dur": "P99999999999D"}}}', {}),
         'unknown charset': (b'{"take": {"item": {"name": "a"}}}', {'CONTENT_TYPE': 'application/json; charset=bogus-9'}),
+        'empty charset': (b'{"take": {"item": {"name": "a"}}}', {'CONTENT_TYPE': 'application/json; charset='}),
+        'quoted empty charset': (b'{"take": {"item": {"name": "a"}}}', {'CONTENT_TYPE': 'application/json; charset=""'}),
+        'charset with junk': (b'{"take": {"item": {"name": "a"}}}', {'CONTENT_TYPE': 'application/json; charset=utf-8; charset=x; =;;'}),
         'deep nesting': (b'[' * 5000 + b']' * 5000, {}),
         'huge exponent': (b'{"take": {"item": {"many": [1e999999]}}}', {}),
         'duplicate keys': (b'{"take": {"item": {"name": "a", "name": "b"}}, "take": 5}', {}),
@@ -264,6 +271,8 @@ HOSTILE = {     # (input protocol, validator) -> {name: (body, wsgi env)}
         'tab indentation': (b'take:\n\titem: 1', {}),
         'binary for text': (b'take: {item: {name: !!binary "/w=="}}', {}),
         'unknown charset': (b'take: {item: {name: a}}', {'CONTENT_TYPE': 'text/yaml; charset=bogus-9'}),
+        'empty charset': (b'take: {item: {name: a}}', {'CONTENT_TYPE': 'text/yaml; charset='}),
+        'quoted empty charset': (b'take: {item: {name: a}}', {'CONTENT_TYPE': 'text/yaml; charset=""'}),
         'timestamp for text': (b'take: {item: {name: 2001-01-01}}', {}),
         'set for an array': (b'take: {item: {tags: !!set {a, b}}}', {}),
     },
@@ -286,7 +295,7 @@ def _hostile_app(proto, validator):
                     'spyne.protocol.soap.soap11.Soap11.decompose_incoming_envelope',
                     'spyne.protocol.yaml.YamlDocument.create_in_document',
                     'spyne.protocol.dictdoc.hier.HierDictDocument._doc_to_object'],
-         bounds={'requests': 'the concrete protocol-specific hostile documents listed in HOSTILE (9 XML, 9 SOAP, 13 JSON, 9 YAML), '
+         bounds={'requests': 'the concrete protocol-specific hostile documents listed in HOSTILE (11 XML, 11 SOAP, 16 JSON, 11 YAML), '
                              'each through WsgiApplication, validators soft / None (/ lxml for XML and SOAP), chunked or not'})
 def hostile_documents(sx, p):
     """a structurally hostile document is answered (normally or with a Client fault) - nothing escapes the WSGI callable,
